@@ -189,6 +189,42 @@ func (d *daoEnv) step(st daoStep) (bool, string) {
 		// log the ratio the message really carries (18-decimal fixed point)
 		st.Args["ratio"] = []any{ratio.BigInt().String(), "1000000000000000000"}
 		msg = ucdaotypes.NewMsgTransferOwnershipWithRatio(acct("owner"), acct("newOwner"), ratio)
+	case "reimport":
+		// ExportGenesis -> empty the module's store -> InitGenesis (the optional declared total kept or left out)
+		bk := d.App.DaoKeeper.(ucdaokeeper.BaseKeeper)
+		var ierr string
+		func() {
+			defer func() {
+				if r := recover(); r != nil {
+					ierr = fmt.Sprint("panic: ", r)
+				}
+			}()
+			cctx, write := d.Ctx.CacheContext()
+			gs := bk.ExportGenesis(cctx)
+			if st.Args["declared"] != true {
+				gs.TotalBalance = sdk.Coins{}
+			}
+			store := cctx.KVStore(d.App.GetKey(ucdaotypes.StoreKey))
+			var keys [][]byte
+			it := store.Iterator(nil, nil)
+			for ; it.Valid(); it.Next() {
+				keys = append(keys, append([]byte{}, it.Key()...))
+			}
+			it.Close()
+			for _, k := range keys {
+				store.Delete(k)
+			}
+			bk.InitGenesis(cctx, gs)
+			write()
+		}()
+		return ierr == "", ierr
+	case "transfer_dup":
+		// a hand-crafted amount that names one denomination several times
+		var cs sdk.Coins
+		for i := 0; i < int(st.Args["times"].(float64)); i++ {
+			cs = append(cs, sdk.NewCoin(d.real(st.Args["denom"].(string)), sdkmath.NewIntFromBigInt(mustBig(st.Args["amt"].(string)))))
+		}
+		msg = &ucdaotypes.MsgTransferOwnershipWithAmount{Owner: acct("owner").String(), NewOwner: acct("newOwner").String(), Amount: cs}
 	case "set_enabled":
 		bk := d.App.DaoKeeper.(ucdaokeeper.BaseKeeper)
 		p := bk.GetParams(d.Ctx)
@@ -300,7 +336,14 @@ func ucdaoMain(args []string) error {
 				num := fmt.Sprint(1 + r.Intn(1000))
 				script = append(script, daoStep{"transfer_ratio", M{"owner": a, "newOwner": b, "ratio": []any{num, "1000"}}})
 			case 9:
-				script = append(script, daoStep{"set_enabled", M{"enabled": r.Intn(3) != 0}})
+				switch r.Intn(3) {
+				case 0:
+					script = append(script, daoStep{"set_enabled", M{"enabled": r.Intn(3) != 0}})
+				case 1:
+					script = append(script, daoStep{"reimport", M{"declared": r.Intn(2) == 0}})
+				default:
+					script = append(script, daoStep{"transfer_dup", M{"owner": a, "newOwner": b, "denom": denoms[r.Intn(len(denoms))], "amt": pickAmt("900000000000000000000"), "times": float64(2 + r.Intn(2))}})
+				}
 			}
 		}
 		// transfer_amount amounts are drawn relative to what the owner really holds at that
